@@ -436,6 +436,9 @@ class Spec:
                 e["events"].append((a[1], a[2]))
         elif sc["kind"] == "parent":
             sc["to_owner"].append(a)
+            # C06 fixes the order of attachments by the moment they were *made*; they travel when the scope ends
+            self.att_seq = getattr(self, "att_seq", {})
+            self.att_seq[id(a)] = len(self.att_seq) + 1
         else:
             sc.setdefault("orphans", []).append(a)   # collector scope, no local open: parent id 0
 
@@ -461,17 +464,32 @@ class Spec:
                 # order is specified per route and thread (C06): the span's own properties, then one group per
                 # (route, thread) of later attachments
                 groups = {("own", None): {"props": list(sp["props"]), "events": []}}
+                seqs = getattr(self, "att_seq", {})
                 for x, tag in att:
-                    g = groups.setdefault(tag, {"props": [], "events": []})
+                    g = groups.setdefault(tag, {"props": [], "events": [], "pseq": [], "eseq": []})
                     if x[0] == "props":
                         props += x[1]
                         g["props"] += x[1]
+                        g["pseq"] += [seqs.get(id(x), 0)] * len(x[1])
                     else:
                         events.append((x[1], x[2]))
                         g["events"].append((x[1], x[2]))
+                        g["eseq"].append(seqs.get(id(x), 0))
+                # the local route: the property speaks of the order in which the attachments were made.  They arrive in the
+                # order in which their scopes ended, which differs when scopes of the same span are nested (D23)
+                reordered = False
+                for tag, g in groups.items():
+                    if tag[0] != "local":
+                        continue
+                    for items, sq in (("props", "pseq"), ("events", "eseq")):
+                        order = sorted(range(len(g[items])), key=lambda i: g[sq][i])
+                        if order != list(range(len(order))):
+                            g[items] = [g[items][i] for i in order]
+                            reordered = True
                 self.deliver(sp["name"], it, it["parent"], props, events, "span", born=sp["born"])
                 self.expected[-1]["closed"] = pos
                 self.expected[-1]["groups"] = groups
+                self.expected[-1]["nested_same_owner"] = reordered
         if sp["root_key"]:
             self.touch(t)
             if sp["root_key"] != "U":
